@@ -35,7 +35,7 @@ def lib_call(op, fn, *a, **k):
     try:
         return fn(*a, **k)
     except (kernel.Deadlock, kernel.StepCap, kernel.Overdue, kernel.SimAbort, seams.UnseamedNondeterminism,
-            seams.BusyWait, _c.Runaway, _c.StepExhausted):
+            seams.BusyWait, _c.Runaway, _c.StepExhausted, _c.InjectedFailure):
         raise
     except Exception as e:  # noqa
         raise LibRaised(op, e) from e
@@ -184,10 +184,20 @@ def _ns_skip(obj):
     return isinstance(obj, (RecordingGenerator, np.random.Generator, Target, GradOf))
 
 
-def numeric_state(obj, depth=0, seen=None):
+# the state the samplers themselves report and write to their save files (by attribute name), and the attributes
+# that hold sub-objects carrying such state.  Anything else (scratch buffers, caches) is nobody's reported state.
+REPORTED_STATE = frozenset("""samples sigma avg var num sigma_values sigma_checks try_count last_update target_rate max_tries
+    chk_int growth_factor adjust_rate _non_negative bounded upper lower width chain_length n_parameters probs inv_temp
+    dir_update_interval dir_growth_factor next_update angles_history update_history directions covar inv_mass theta
+    leapfrog_steps steps walker_positions n_walkers walker_probs n_iterations total_proposals failed_updates alpha
+    max_attempts sample sample_probs epsilon epsilon_values epsilon_checks accept_rate x_lwr x_width
+    params ES mass bounds""".split())
+
+
+def numeric_state(obj, depth=0, seen=None, only=None):
     """Every number reachable from a sampler's attributes, by attribute path, with representation differences
     removed (python / numpy scalars, lists / tuples / arrays of numbers are the same thing here).  Generators,
-    the user's posterior and the progress printer are left out."""
+    the user's posterior and the progress printer are left out; with `only`, attributes not named in it too."""
     if seen is None:
         seen = set()
     if depth > 6:
@@ -200,16 +210,16 @@ def numeric_state(obj, depth=0, seen=None):
     if _ns_skip(obj):
         return "<skip>"
     if isinstance(obj, np.ndarray) and obj.ndim == 0 and obj.dtype != object:
-        return numeric_state(obj.item(), depth, seen)
+        return numeric_state(obj.item(), depth, seen, only)
     if isinstance(obj, (np.ndarray, list, tuple)):
         try:
             a = np.asarray(obj, dtype=float)
             return ("num", a.shape, hashlib.sha256(np.ascontiguousarray(a).tobytes()).hexdigest()[:16],
                     float(np.nansum(a)) if a.size else 0.0)
         except Exception:  # noqa - not a block of numbers
-            return [numeric_state(v, depth + 1, seen) for v in obj]
+            return [numeric_state(v, depth + 1, seen, only) for v in obj]
     if isinstance(obj, dict):
-        return {str(k): numeric_state(v, depth + 1, seen) for k, v in obj.items()}
+        return {str(k): numeric_state(v, depth + 1, seen, only) for k, v in obj.items()}
     if callable(obj) and not hasattr(obj, "__dict__"):
         return "<callable>"
     if id(obj) in seen:
@@ -223,7 +233,9 @@ def numeric_state(obj, depth=0, seen=None):
                 continue
             if type(v).__name__ == "ChainProgressPrinter" or k in ("posterior", "grad", "ProgressPrinter"):
                 continue
-            out[k] = numeric_state(v, depth + 1, seen)
+            if only is not None and k not in only:
+                continue
+            out[k] = numeric_state(v, depth + 1, seen, only)
         return out
     return "<%s>" % type(obj).__name__
 
@@ -233,6 +245,8 @@ def state_diff(a, b, path=""):
     out = []
     if isinstance(a, dict) and isinstance(b, dict):
         for k in sorted(set(a) | set(b)):
+            if (k not in a or k not in b) and k.startswith("_"):
+                continue  # a private attribute held by one of the two only (caches and the like) is not reported state
             if k not in a:
                 out.append(path + "/" + k + " missing after reload")
             elif k not in b:
